@@ -132,7 +132,7 @@ def main():
         "engines": [
             {"name": "bdverif", "path": "ws/harness", "serves_properties": claimed,
              "kind_free_text": "Rust harness: proptest TestRunner per worker thread (fixed seeds from VERIF_SEED), exhaustive enumerators, exact oracle crate ws/oracle (no dependency on bigdecimal), replay files, known-finding table"},
-            {"name": "fuzz", "path": "fuzz", "serves_properties": [i for i in claimed if i in ("C01", "C02", "C03", "C04", "C05", "C16", "C17", "C19")],
+            {"name": "fuzz", "path": "fuzz", "serves_properties": [i for i in claimed if i in ("C01", "C02", "C03", "C04", "C05", "C06", "C07", "C08", "C09", "C10", "C11", "C12", "C16", "C17", "C19")],
              "kind_free_text": "cargo-fuzz / libFuzzer targets with the semantic oracle inside the target (thorough tier only)"},
         ],
         "checks": checks,
